@@ -88,6 +88,7 @@ class TriggerHandler:
         """
         self.__old_thread_trace = None
         self.__old_sys_trace = None
+        self.__hooks_installed = False
         self._push_service = push_service
         self._tp_config: List[Trigger] = []
         self._config = config
@@ -106,6 +107,7 @@ class TriggerHandler:
         self.__old_thread_trace = threading.gettrace() if hasattr(threading, 'gettrace') else threading._trace_hook
         sys.settrace(self.trace_call)
         threading.settrace(self.trace_call)
+        self.__hooks_installed = True
 
     def new_config(self, new_config: List['Trigger']):
         """
@@ -239,5 +241,8 @@ class TriggerHandler:
 
         Reset the settrace to the previous values.
         """
-        sys.settrace(self.__old_sys_trace)
-        threading.settrace(self.__old_thread_trace)
+        # only put back what start() replaced: when tracing is disabled by config we never touched the hooks
+        if self.__hooks_installed:
+            sys.settrace(self.__old_sys_trace)
+            threading.settrace(self.__old_thread_trace)
+            self.__hooks_installed = False
